@@ -192,6 +192,7 @@ type Exec struct {
 	allowHeapClosure bool
 	anchorResults []Val
 	anchorArgs    []Val
+	activeProp    string // the property being checked (clauses labelled for other properties only are inactive)
 	lastWitness   map[string]Val // ghost witnesses of the contract call just made (for after-call anchors)
 	inGoal    int
 	goalIx    []string
